@@ -36,7 +36,7 @@ type BridgeCfg struct {
 	// NoFeeChains: chains for which no validator registers a relayer fee (the chain never gets a relayer).
 	NoFeeChains map[string]bool
 	// NoChainVals: validators that never register external accounts.
-	NoChainVals map[int]bool
+	NoChainVals  map[int]bool
 	CommunityFee string
 	SecurityFee  string
 	// FeeMultiplier per validator index (default "1.1")
@@ -178,4 +178,6 @@ func bigU(u uint64) *big.Int { return new(big.Int).SetUint64(u) }
 
 func (b *Bridge) since() time.Duration { return b.Now.Sub(b.Genesis) }
 
-func coins(denom string, amt int64) sdk.Coins { return sdk.NewCoins(sdk.NewCoin(denom, math.NewInt(amt))) }
+func coins(denom string, amt int64) sdk.Coins {
+	return sdk.NewCoins(sdk.NewCoin(denom, math.NewInt(amt)))
+}
